@@ -755,8 +755,8 @@ func runPopRace(t *testing.T, cs PopRaceCase) *ev.Verdict {
 						if failed.Load() {
 							return
 						}
-						if spin&63 == 63 {
-							runtime.Gosched()
+						if spin > 4000 && spin&63 == 63 {
+							runtime.Gosched() // oversubscribed machine: let the others run
 						}
 					}
 					func() {
@@ -785,8 +785,10 @@ func runPopRace(t *testing.T, cs PopRaceCase) *ev.Verdict {
 				val++
 			}
 			round.Store(r)
-			for finished.Load() < r*int64(cs.Poppers) && !failed.Load() {
-				runtime.Gosched()
+			for spin := 0; finished.Load() < r*int64(cs.Poppers) && !failed.Load(); spin++ {
+				if spin > 4000 && spin&63 == 63 {
+					runtime.Gosched()
+				}
 			}
 			if failed.Load() {
 				break
